@@ -86,9 +86,12 @@ func (r n10Reply) String() string {
 	return fmt.Sprintf("%s lcount=%d lrcount=%d count=%d rcount=%d lockid=%x data=%x", aResultName(r.Result), r.LCount, r.LRCount, r.Count, r.Rcount, r.LockId[:2], r.Data)
 }
 
+// stateError: the request was refused because of the node's role. Binary: result code STATE_ERROR.
+// Text: the transparency layer has no result array for a refusal, it answers a RESP error line
+// ("-ERR Leader Server Error", "-ERR State Error"), or an array whose code is 10.
 func (r n10Reply) stateError() bool {
 	if r.Raw != "" {
-		return strings.Contains(r.Raw, "STATE_ERROR") || strings.HasPrefix(r.Raw, "*") && strings.Contains(r.Raw, ":10\r\n") || strings.Contains(strings.ToLower(r.Raw), "state error")
+		return strings.HasPrefix(r.Raw, "-ERR") || strings.HasPrefix(r.Raw, "*") && strings.Contains(r.Raw, "STATE_ERROR")
 	}
 	return !r.None && r.Result == protocol.RESULT_STATE_ERROR
 }
@@ -245,7 +248,11 @@ func (x *n10Conn) doText(op *n09Op) n10Reply {
 // ---------------------------------------------------------------------------------------------
 // executor
 
+const n10KeyProbable = "C10:concurrent-check-answered-locally-by-non-leader"
+const n10KeyUnlockUnknown = "C10:non-leader-unlock-of-unknown-key-answers-UNLOCK_ERROR"
+
 type n10Info struct {
+	excludedUnknownUnlock int
 	forwarded, refused, direct, noReply int
 	stateSwitches                      int
 	followerChecks                     int
@@ -274,9 +281,13 @@ func n10Cluster(preload []n09Op) (*n09Env, string) {
 	}
 	// a first record so that there is a position to converge to
 	e.send(n09Op{K: "lock", Db: 0, Key: 200, Id: 200, E: 600, EF: 0x0100})
-	if _, viol, inc := e.syncAndCheck(false); inc != "" || viol != "" {
+	if key, viol, inc := e.syncAndCheck(false); inc != "" || (viol != "" && !vIsKnown(key)) {
+		rep := e.report()
 		e.close()
-		return nil, "preload did not converge: " + inc + viol
+		if viol != "" {
+			return nil, "VIOLATION " + key + "\n" + viol + "\n" + rep
+		}
+		return nil, "preload did not converge: " + inc
 	}
 	return e, ""
 }
@@ -344,6 +355,15 @@ func n10RunCase(c *n10Case) (out n10Out) {
 				}
 			}
 			beforeDirect = n09Canon(fsl, false)
+			if st.Op.K == "unlock" && n09Known(n10KeyUnlockUnknown) {
+				if _, ok := beforeDirect[fmt.Sprintf("db%d/key%d", st.Op.Db, st.Op.Key+1)]; !ok {
+					// known finding: UnLock looks the key up before it looks at the role; an unknown key is
+					// answered UNLOCK_ERROR. Excluded: no direct unlock of a key the node does not have.
+					out.info.excludedUnknownUnlock++
+					log = append(log, fmt.Sprintf("#%d direct %v skipped (known finding %s)", i, *st.Op, n10KeyUnlockUnknown))
+					continue
+				}
+			}
 			directReply = nil
 			cmd := n10Command(st.Op, 100000+i)
 			db := fsl.GetOrNewDB(cmd.DbId)
@@ -359,6 +379,14 @@ func n10RunCase(c *n10Case) (out n10Out) {
 				return
 			}
 			log = append(log, fmt.Sprintf("#%d direct %v -> %v", i, *st.Op, *directReply))
+			if directReply.Result == protocol.RESULT_TIMEOUT && st.Op.K == "lock" && st.Op.Flag&0x08 != 0 {
+				fail(n10KeyProbable, "step %d: direct lock with the concurrent-check flag on a node in role %s answered TIMEOUT from the node's own (replicated) view instead of STATE_ERROR (LockDB.Lock runs the concurrent check before it looks at the role; Transparency*ServerProtocol does the same through CheckProbableLock)", i, state)
+				return
+			}
+			if directReply.Result == protocol.RESULT_UNLOCK_ERROR && st.Op.K == "unlock" {
+				fail(n10KeyUnlockUnknown, "step %d: direct unlock on a node in role %s answered UNLOCK_ERROR instead of STATE_ERROR (LockDB.UnLock answers from its own key table before it checks the role)", i, state)
+				return
+			}
 			if directReply.Result != protocol.RESULT_STATE_ERROR {
 				fail("C10:non-leader-decides", "step %d: direct %s on a node in role %s answered %s instead of STATE_ERROR", i, st.Op.K, state, aResultName(directReply.Result))
 				return
@@ -442,7 +470,11 @@ func n10RunCase(c *n10Case) (out n10Out) {
 		llog = append(llog, fmt.Sprintf("#%d %v -> %v", i, *st.Op, lr))
 		fr := *replies[i]
 		if !reflect.DeepEqual(lr, fr) && !(len(lr.Data) == 0 && len(fr.Data) == 0 && lr.Result == fr.Result && lr.LCount == fr.LCount && lr.LRCount == fr.LRCount && lr.Count == fr.Count && lr.Rcount == fr.Rcount && lr.LockId == fr.LockId && lr.Raw == fr.Raw && lr.None == fr.None) {
-			fail("C10:reply-through-follower-differs", "step %d %v: reply relayed by the follower differs from the leader's own reply\n    via follower: %v\n    from leader : %v\n  same requests sent to a leader directly:\n    %s", i, *st.Op, fr, lr, strings.Join(llog, "\n    "))
+			key := "C10:reply-through-follower-differs"
+			if st.Op.K == "lock" && st.Op.Flag&0x08 != 0 {
+				key = n10KeyProbable
+			}
+			fail(key, "step %d %v: reply relayed by the follower differs from the leader's own reply\n    via follower: %v\n    from leader : %v\n  same requests sent to a leader directly:\n    %s", i, *st.Op, fr, lr, strings.Join(llog, "\n    "))
 			return
 		}
 	}
@@ -475,7 +507,7 @@ func n10GenOp(t *rapid.T, text bool, keys int) *n09Op {
 	return op
 }
 
-func n10GenCase(t *rapid.T) *n10Case {
+func n10GenCase(t *rapid.T, st *vStat) *n10Case {
 	c := &n10Case{Kind: "forward"}
 	c.Text = rapid.IntRange(0, 2).Draw(t, "text") == 0
 	c.Stall = rapid.IntRange(0, 1).Draw(t, "stall") == 0
@@ -503,14 +535,34 @@ func n10GenCase(t *rapid.T) *n10Case {
 			c.Steps = append(c.Steps, n10Step{Op: n10GenOp(t, c.Text, keys)})
 		}
 	}
+	if vIsKnown(n10KeyProbable) {
+		// known finding: a non-leader answers concurrent-check requests (flag 0x08, timeout 0) itself from its
+		// replicated view. Excluded: the flag is not generated for direct calls nor while the stream is stalled
+		// (with a live stream the harness lets the follower catch up, so both views agree).
+		for _, s := range c.Steps {
+			if s.Op != nil && s.Op.K == "lock" && s.Op.Flag&0x08 != 0 && (s.Direct || c.Stall) {
+				s.Op.Flag &^= 0x08
+				st.Exclude("concurrent-check flag dropped from a direct / stalled-stream request (known finding " + n10KeyProbable + ")")
+			}
+		}
+	}
 	return c
 }
 
 func TestC10_Forward(t *testing.T) {
 	st := vstat("TestC10_Forward")
 	rapid.Check(t, func(t *rapid.T) {
-		c := n10GenCase(t)
+		c := n10GenCase(t, st)
 		out := n10RunCase(c)
+		if strings.HasPrefix(out.info.inconclusive, "VIOLATION ") {
+			// the cluster did not even reach the script: a C09 matter, reported under C09's key
+			rest := out.info.inconclusive[10:]
+			key := rest
+			if i := strings.IndexByte(rest, '\n'); i > 0 {
+				key = rest[:i]
+			}
+			vFail(t, "TestC10_Forward", key, c, "while preparing the cluster: %s", rest)
+		}
 		if out.info.inconclusive != "" {
 			n09Inconclusive("C10: " + out.info.inconclusive)
 		}
@@ -529,6 +581,9 @@ func TestC10_Forward(t *testing.T) {
 		add(c.Text, "text protocol")
 		add(!c.Text, "binary protocol")
 		add(out.info.noReply > 0, "request without reply")
+		for i := 0; i < out.info.excludedUnknownUnlock; i++ {
+			st.Exclude("direct unlock of a key unknown to the node skipped (known finding " + n10KeyUnlockUnknown + ")")
+		}
 		st.Case(out.info.forwarded > 0 && (out.info.refused > 0 || out.info.direct > 0), c.fingerprint(), cls, func() interface{} { return c })
 		if out.err != nil {
 			vFail(t, "TestC10_Forward", out.key, c, "%v", out.err)
